@@ -142,6 +142,10 @@ func checkC17(c *ev.Ctx) {
 	bigs := []ratioCase{
 		{ID: "big-xx-7M", Kind: "xx", Writer: "xz", N: 7 << 20, DictCap: 8 << 20},
 		{ID: "big-run-48M", Kind: "run", Writer: "lzma2", N: 48 << 20, Byte: 0x55, DictCap: 8 << 20},
+		// the binary tree matcher with a window of MiB (its search budget per position is fixed,
+		// the number of candidates grows with the window), through the classic writer, which
+		// cannot fall back to storing a chunk
+		{ID: "big-xx-2M-bt-lzma", Kind: "xx", Writer: "lzma", N: 2 << 20, DictCap: 2 << 20, Matcher: 1},
 	}
 	if thorough(c) {
 		bigs = append(bigs,
